@@ -20,11 +20,13 @@ Definition is_py_space (b : N) : bool :=
 
 (* bytes.split() without arguments: the maximal runs of non-whitespace bytes, in order.
    cur = the current run, reversed. *)
+(* List.rev of the standard library is quadratic; the executable model uses the linear one (fast_rev_eq: the same list) *)
+Definition fast_rev (l : list N) : list N := rev_append l [].
 Fixpoint split_gen (sp : N -> bool) (s : list N) (cur : list N) : list (list N) :=
   match s with
-  | [] => match cur with [] => [] | _ => [rev cur] end
+  | [] => match cur with [] => [] | _ => [fast_rev cur] end
   | c :: r => if sp c
-              then match cur with [] => split_gen sp r [] | _ => rev cur :: split_gen sp r [] end
+              then match cur with [] => split_gen sp r [] | _ => fast_rev cur :: split_gen sp r [] end
               else split_gen sp r (c :: cur)
   end.
 Definition split_py (s : list N) : list (list N) := split_gen is_py_space s [].
